@@ -393,6 +393,11 @@ class kFlowDecomp(pathmodel.AbstractPathModelDAG):
         start_time = time.perf_counter()
         (paths, weights) = self.G.decompose_using_max_bottleneck(self.flow_attr)
 
+        # The greedy weights have the type of the flow values: they are a solution only if they have the requested type
+        if self.weight_type == int and any(w != int(w) for w in weights):
+            return False
+        weights = [self.weight_type(w) for w in weights]
+
         # Check if the greedy decomposition satisfies the subpath constraints
         if self.subpath_constraints:
             for subpath in self.subpath_constraints:
